@@ -434,8 +434,14 @@ func (m *Manager) FlushMemTables() error {
 	// Track operation
 	m.stats.TrackOperation(stats.OpFlush)
 
+	// Snapshot the list of immutable MemTables under the storage lock
+	// (scheduleFlush appends to it under that lock)
+	m.mu.RLock()
+	immutables := append([]*memtable.MemTable(nil), m.immutableMTs...)
+	m.mu.RUnlock()
+
 	// If no immutable MemTables, flush the active one if needed
-	if len(m.immutableMTs) == 0 {
+	if len(immutables) == 0 {
 		tables := m.memTablePool.GetMemTables()
 		if len(tables) > 0 && tables[0].ApproximateSize() > 0 {
 			// In testing, we might want to force flush the active table too
@@ -463,7 +469,7 @@ func (m *Manager) FlushMemTables() error {
 	}
 
 	// Flush each immutable MemTable
-	for i, imMem := range m.immutableMTs {
+	for i, imMem := range immutables {
 		if err := m.flushMemTable(imMem); err != nil {
 			m.stats.TrackError("memtable_flush_error")
 			return fmt.Errorf("failed to flush MemTable %d: %w", i, err)
@@ -471,8 +477,11 @@ func (m *Manager) FlushMemTables() error {
 	}
 
 	verifhook.At("mgr.flush.beforeClear")
-	// Clear the immutable list - the MemTablePool manages reuse
-	m.immutableMTs = m.immutableMTs[:0]
+	// Drop the flushed tables from the list; tables scheduled meanwhile stay
+	// (the MemTablePool manages reuse)
+	m.mu.Lock()
+	m.immutableMTs = m.immutableMTs[len(immutables):]
+	m.mu.Unlock()
 
 	// Track flush count
 	m.stats.TrackFlush()
